@@ -277,6 +277,7 @@ func main() {
 	contractsProved := map[string]bool{}
 	outDir := filepath.Join(verifDir, "out", *prop)
 	cexN := 0
+	nSkipped := 0
 	replayedRun := map[*ObRun]bool{}
 	reachUnknown := 0
 	nReplayed := 0
@@ -305,6 +306,8 @@ func main() {
 				distinct[string(h[:8])] = true
 			}
 			switch ob.Verdict {
+			case "skipped":
+				nSkipped++
 			case "discharged":
 				nDis++
 			case "refuted":
@@ -380,8 +383,8 @@ func main() {
 		fmt.Printf("INCONCLUSIVE property=%s %s\n", *prop, i)
 	}
 	wall := time.Since(start).Seconds()
-	fmt.Printf("property=%s tier=%s harness_runs=%d obligations=%d discharged=%d refuted=%d inconclusive=%d solver_queries=%d wall=%.1fs\n",
-		*prop, *tier, len(runs), nOb, nDis, nRef, nInc, atomic.LoadInt64(&statQueries), wall)
+	fmt.Printf("property=%s tier=%s harness_runs=%d obligations=%d discharged=%d refuted=%d inconclusive=%d skipped_after_refutation=%d solver_queries=%d wall=%.1fs\n",
+		*prop, *tier, len(runs), nOb, nDis, nRef, nInc, nSkipped, atomic.LoadInt64(&statQueries), wall)
 
 	if !*noEvidence && re == nil {
 		solverTime := map[string]float64{}
